@@ -16,7 +16,7 @@ use crate::adapters::*;
 use crate::exec::guard_nopanic;
 use crate::ops::*;
 use crate::stats::*;
-use crate::tok::{self, *};
+use crate::tok::{self, Injected, *};
 
 thread_local! {
     static ZC: Cell<(u64, u64)> = Cell::new((0, 0)); // (created, destroyed)
@@ -415,6 +415,109 @@ impl ZExec<$K> {
                     self.form = o;
                     false
                 }
+            },
+            VKindConv => match std::mem::replace(&mut self.form, ZForm::Gone) {
+                ZForm::V(v) => {
+                    let specs = <$K as Kind<ZDrop>>::kc_specs();
+                    if specs.is_empty() {
+                        self.form = ZForm::V(v);
+                        return false;
+                    }
+                    let variant = op.a as usize % specs.len();
+                    let extras: Vec<ZDrop> = (0..specs[variant].extras).map(|_| ZDrop::new()).collect();
+                    if let Some(v2) = guard_nopanic(specs[variant].name, 0, 0, move || <$K as Kind<ZDrop>>::v_kind_conv(v, variant, extras)) {
+                        self.form = ZForm::V(v2);
+                    }
+                    true
+                }
+                o => {
+                    self.form = o;
+                    false
+                }
+            },
+            VReduce => match std::mem::replace(&mut self.form, ZForm::Gone) {
+                ZForm::V(v) => {
+                    let keep_new = op.a % 2 == 1;
+                    let mut calls = 0usize;
+                    let r = guard_nopanic("reduce", 0, 0, || {
+                        <$K as Kind<ZDrop>>::v_reduce(v, |a, b| {
+                            calls += 1;
+                            if calls > 80 {
+                                std::panic::panic_any(Injected);
+                            }
+                            if keep_new {
+                                drop(a);
+                                b
+                            } else {
+                                drop(b);
+                                a
+                            }
+                        })
+                    });
+                    if r.is_some() && calls != n - 1 {
+                        tok::raise(V5_ORDER, format!("zero-sized elements: reduce called its closure {} times on {} elements", calls, n));
+                    }
+                    drop(r);
+                    true
+                }
+                o => {
+                    self.form = o;
+                    false
+                }
+            },
+            VMap => match std::mem::replace(&mut self.form, ZForm::Gone) {
+                ZForm::V(v) => {
+                    let mode = op.a % 4;
+                    let mk = || <$K as Kind<ZDrop>>::v_from_arr(<$K as Kind<ZDrop>>::arr_from_vec((0..n).map(|_| ZDrop::new()).collect()));
+                    let mut calls = 0usize;
+                    let r = guard_nopanic("map", 0, 0, || match mode {
+                        0 => <$K as Kind<ZDrop>>::v_map(v, |x| {
+                            calls += 1;
+                            x
+                        }),
+                        1 => <$K as Kind<ZDrop>>::v_zip_map(v, mk(), |x, y| {
+                            calls += 1;
+                            drop(y);
+                            x
+                        }),
+                        2 => <$K as Kind<ZDrop>>::v_map2(v, mk(), |x, y| {
+                            calls += 1;
+                            drop(y);
+                            x
+                        }),
+                        _ => <$K as Kind<ZDrop>>::v_map3(v, mk(), mk(), |x, y, z| {
+                            calls += 1;
+                            drop(y);
+                            drop(z);
+                            x
+                        }),
+                    });
+                    if let Some(v2) = r {
+                        if calls != n {
+                            tok::raise(V5_ORDER, format!("zero-sized elements: map called its closure {} times on {} elements", calls, n));
+                        }
+                        self.form = ZForm::V(v2);
+                    }
+                    true
+                }
+                o => {
+                    self.form = o;
+                    false
+                }
+            },
+            VClone => match &self.form {
+                ZForm::V(v) => {
+                    if op.a % 2 == 1 {
+                        let mut w = <$K as Kind<ZDrop>>::v_from_arr(<$K as Kind<ZDrop>>::arr_from_vec((0..n).map(|_| ZDrop::new()).collect()));
+                        let _ = guard_nopanic("clone_from", 0, 0, || <$K as Kind<ZDrop>>::v_clone_from(&mut w, v));
+                        drop(w);
+                    } else {
+                        let c = guard_nopanic("clone", 0, 0, || <$K as Kind<ZDrop>>::v_clone(v));
+                        drop(c);
+                    }
+                    true
+                }
+                _ => false,
             },
             Drop => {
                 if matches!(self.form, ZForm::Gone) {
